@@ -1,6 +1,7 @@
 package kv
 
 import (
+	"bytes"
 	"encoding/base64"
 	"errors"
 	"fmt"
@@ -45,11 +46,27 @@ func decrypt(key *[32]byte, c []byte) ([]byte, error) {
 	var nonce [encryptNonceLen]byte
 	copy(nonce[:], c[:encryptNonceLen])
 	m, ok := secretbox.Open(nil, c[encryptNonceLen:], &nonce, key)
+	if ok && len(m) > 64-crypto_secretbox_zerobytes && !sealedByEncrypt(key, m, nonce[:]) {
+		// The old implementation computes the same MAC but restarts the key stream
+		// behind the first 32 bytes: its boxes open, with a tail that is not what was
+		// written. They are told apart by the nonce, which encrypt derives from the
+		// message.
+		ok = false
+	}
 	if !ok {
 		// fallback to the old implementation
 		return crypto_secretbox_open_easy(c[24:], c[0:24], key)
 	}
 	return m, nil
+}
+
+// sealedByEncrypt tells if n is the nonce under which encrypt seals message.
+func sealedByEncrypt(key *[32]byte, message []byte, n []byte) bool {
+	combined := make([]byte, 0, len(message)+len(key))
+	combined = append(combined, message...)
+	combined = append(combined, key[:]...)
+	want, err := nonce(combined, encryptNonceLen)
+	return err == nil && bytes.Equal(want, n)
 }
 
 func nonce(message []byte, nonce_len int) ([]byte, error) {
